@@ -147,6 +147,9 @@ mut("alphabet-frozenset", "selfies/bond_constraints.py",
 
     return frozenset(alphabet_subset)''')
 
+# (a 'permanent recursion limit' patch was tried here and is NOT benign: a deep decode after an
+# encode then succeeds where a fresh interpreter raises RecursionError - C11/C19 both object, rightly)
+
 out = sys.argv[1]
 os.makedirs(out, exist_ok=True)
 for name, edits in M.items():
